@@ -196,7 +196,7 @@ func TestC14(t *testing.T) {
 		"nontrivial":                            b.Nontrivial,
 		"durations":                             len(durations(thorough)),
 		"attempt_numbers":                       map[string]int{kConstant: len(attemptNumbers(thorough, kConstant)), kLinear: len(attemptNumbers(thorough, kLinear)), kExponential: len(attemptNumbers(thorough, kExponential))},
-		"jitter_seeds_linear":                   map[bool]int{false: 3, true: 4}[thorough],
+		"jitter_seeds_linear":                   3,
 		"largest_attempt_number":                1 << 31,
 		"retry_after_values":                    len(retryAfterValues(thorough)) + 1,
 		"statuses":                              "no response, 200, 429, 500, 503",
